@@ -143,3 +143,53 @@ func VerifC21ClientAckAfterRecv() {
 	}
 	rt.Reach("end")
 }
+
+// VerifC21ClientReplace: a message the application has taken is withdrawn by its sender and replaced by
+// the next one before the client's session routine got to acknowledge it (every run-to-block order of
+// the application, the reader and the session routine): the client never acknowledges a message that it
+// has not handed to the application, and the replacement is handed over.
+func VerifC21ClientReplace() {
+	rt.SchedBound(0, true)
+	A, Me := clNewPeer(1), clNewPeer(60)
+	w := clNewWorld(Me, A, true)
+	w.sess.respCh <- clOpened(5)
+	rt.Quiesce()
+	m1, err := signaling_rpc.NewSessionMsg(A.priv, hash.HashType_HashType_BLAKE3, []byte{1}, 1)
+	rt.Assert("m1", err == nil)
+	m2, err := signaling_rpc.NewSessionMsg(A.priv, hash.HashType_HashType_BLAKE3, []byte{2}, 2)
+	rt.Assert("m2", err == nil)
+	w.sess.respCh <- clRecv(m1)
+	rt.Quiesce()
+	// the sender cancels m1 and sends m2; the application starts receiving at the same time
+	w.sess.respCh <- clClear(1)
+	w.sess.respCh <- clRecv(m2)
+	var got []uint64
+	rt.Go("app", func() {
+		for {
+			m, err := w.ref.Recv(w.ctx)
+			if err != nil {
+				return
+			}
+			got = append(got, m.GetSeqno())
+		}
+	})
+	rt.Quiesce()
+	_, acks, _ := c21Sent(w.sess, 1)
+	for _, a := range acks {
+		handed := false
+		for _, g := range got {
+			if g == a.GetAckMsg() {
+				handed = true
+			}
+		}
+		rt.Assert("an acknowledged message was handed to the application", handed)
+	}
+	gotM2 := false
+	for _, g := range got {
+		if g == 2 {
+			gotM2 = true
+		}
+	}
+	rt.Assert("the replacement message reaches the application", gotM2)
+	rt.Reach("end")
+}
